@@ -491,6 +491,109 @@ def search_c07(results, tier, seed, broken):
                   "rule": "batches of 0..4 instances (mixed sizes, 1- and 2-phase), kinds: all honest, one invalid member at every position, the same proof with its final scalar shifted by +d and -d (alone and among honest members), empty, single, an instance with an identity point / extra round inside; weights drawn by the real code from a replayed RNG; the batch verdict is compared with the conjunction of the individual real verdicts and with the model's batch_verify under the same weights; distinct = distinct (kind, individual verdicts, curve)"}
 
 
+# ------------------------------------------------------------------ C08 / C11
+def _hhit(r, cid, what):
+    return {"component": "hostile", "streams": ["hostile"], "case": cid, "what": what, "outdir": r.outdir,
+            "replay_cmd": "bpharness hostile --seed <seed> --tier <tier>  (see hostile_<curve>.txt)"}
+
+
+def search_c08(results, tier, seed, broken):
+    hits, n, nontriv, dist = [], 0, set(), Counter()
+    for comp, streams, r in results:
+        if comp == "hostile":
+            for c in getattr(r, "crashes", []):
+                hits.append(_hhit(r, "crash:%s" % c["curve"], "the process aborts / panics (%s) while handling hostile input [%s]: %s" % (c["message"], c["what"], c["input_hex"][:2000])))
+        if comp != "hostile" or not hasattr(r, "hostile"):
+            continue
+        H = r.hostile
+        for g in H["grid"]:
+            n += 1
+            dist["verify code=%d" % g["code"]] += 1
+            nontriv.add((g["cap"], g["n1"], g["n"], g["lL"], g["lR"], g["idflag"]))
+            if g["code"] == 99:
+                hits.append(_hhit(r, "grid:%s" % g["curve"], "verify panics on a decoded proof with |L_vec|=%d |R_vec|=%d for a circuit with %d multipliers (%d first-phase), generator capacity %d, identity/zero placement %d" % (
+                    g["lL"], g["lR"], g["n"], g["n1"], g["cap"], g["idflag"])))
+        for b in H["batch"]:
+            n += 1
+            dist["batch code=%d" % b["code"]] += 1
+            if b["code"] == 99:
+                hits.append(_hhit(r, "batch:%s" % b["curve"], "batch_verify panics on a batch of %d instances with hostile L/R lengths" % b["k"]))
+        for f in H["fuzz"]:
+            n += int(f["iters"])
+            dist["fuzz decoded"] += int(f["decoded"])
+            if int(f["panics"]) > 0:
+                hits.append(_hhit(r, "fuzz:%s" % f["curve"], "from_bytes/verify panics on fuzzed bytes %s..." % f["first"][:200]))
+        for p in H["prefix"]:
+            if p["panicked"] > 0:
+                hits.append(_hhit(r, "prefix:%s" % p["curve"], "from_bytes panics on a strict prefix"))
+        for b in H["bad"]:
+            if b["code"] == 99:
+                hits.append(_hhit(r, "bad:%s" % b["curve"], "from_bytes panics on an invalid element (%s at %s)" % (b["kind"], b["pos"])))
+        for d in H["dec"]:
+            if d["impl"][0] == 99:
+                hits.append(_hhit(r, "dec:%s:%s" % (d["curve"], d["kind"]), "from_bytes panics on mis-framed input (%s)" % d["kind"]))
+        for a in H["alloc"]:
+            n += 1
+            dist["alloc peak<=%d" % (1 << max(a["peak"], 1).bit_length())] += 1
+            if a["result"] == 99:
+                hits.append(_hhit(r, "alloc:%s" % a["curve"], "from_bytes panics on a length prefix of %d" % a["claim"]))
+            elif a["peak"] > 64 * a["input"] + 65536:
+                hits.append(_hhit(r, "alloc:%s" % a["curve"], "from_bytes allocates %d bytes for a %d-byte input claiming %d elements" % (a["peak"], a["input"], a["claim"])))
+    return hits, {"searched": n, "hits": len(hits), "distinct_nontrivial": len(nontriv), "distribution": dict(dist),
+                  "rule": "grid: every (|L_vec|,|R_vec|) in 0..4 x 0..4 plus (31,31) (32,32) (33,33) (63,63) (64,64) (65,65) (64,0) (0,64) (32,1) (5,6) (6,5) x circuits n1 in 0..2(3), n2 in 0..2 x generator capacities 1,2,4,8, with identity points / zero scalars placed in the proof on a rotating schedule, through Verifier::verify under catch_unwind; random batches of 0..3 such instances through batch_verify; byte fuzzing (bit flips, truncations, length prefixes incl. 2^40 and u64::MAX, random strings, random byte overwrites) through from_bytes then verify; a counting global allocator bounds from_bytes' peak allocation on huge length prefixes by 64*|input| + 64KiB; the panic / no-panic class is compared with the proved shape model"}
+
+
+def search_c11(results, tier, seed, broken):
+    hits, n, nontriv, dist = [], 0, set(), Counter()
+    for comp, streams, r in results:
+        if comp == "hostile":
+            for c in getattr(r, "crashes", []):
+                if c["what"].split(":")[0] in ("prefix", "bad", "dec", "alloc", "fuzz"):
+                    hits.append(_hhit(r, "crash:%s" % c["curve"], "an invalid encoding is not rejected with an error: the process aborts / panics (%s) on [%s]: %s" % (c["message"], c["what"], c["input_hex"][:2000])))
+        if comp != "hostile" or not hasattr(r, "hostile"):
+            continue
+        H = r.hostile
+        for c in H["codec"]:
+            n += 1
+            ps, ss = H["widths"][c["curve"]]
+            want = 11 * ps + 5 * ss + 16 + 2 * c["k"] * ps
+            nontriv.add((c["curve"], c["n"]))
+            dist["n=%d len=%d" % (c["n"], c["len"])] += 1
+            if c["len"] != want or c["lL"] != c["k"] or c["lR"] != c["k"]:
+                hits.append(_hhit(r, "codec:%s" % c["curve"], "honest proof for %d multipliers: %d bytes with |L|=%d |R|=%d; the shape-determined size is %d bytes with k=%d" % (
+                    c["n"], c["len"], c["lL"], c["lR"], want, c["k"])))
+        for x in H["roundtrip"]:
+            n += 1
+            if not x["rt"]:
+                hits.append(_hhit(r, "roundtrip:%s" % x["curve"], "to_bytes(from_bytes(bytes)) != bytes, or to_bytes is not deterministic"))
+            if not x["same_verdict"]:
+                hits.append(_hhit(r, "roundtrip:%s" % x["curve"], "the decoded proof verifies differently from the original"))
+            if not x["suffix"]:
+                hits.append(_hhit(r, "roundtrip:%s" % x["curve"], "bytes followed by an arbitrary suffix do not decode to the same proof"))
+        for p in H["prefix"]:
+            n += 1
+            if p["accepted"] > 0:
+                hits.append(_hhit(r, "prefix:%s" % p["curve"], "%d strict prefixes of a %d-byte encoding are accepted by from_bytes" % (p["accepted"], p["total"])))
+            if p["panicked"] > 0:
+                hits.append(_hhit(r, "prefix:%s" % p["curve"], "%d strict prefixes of a %d-byte encoding make from_bytes panic instead of returning an error" % (p["panicked"], p["total"])))
+        for b in H["bad"]:
+            n += 1
+            dist["bad %s -> %d" % (b["kind"], b["code"])] += 1
+            if b["code"] == 0:
+                hits.append(_hhit(r, "bad:%s" % b["curve"], "from_bytes accepts an encoding whose field %s holds a %s" % (b["pos"], b["kind"])))
+            if b["code"] == 99:
+                hits.append(_hhit(r, "bad:%s" % b["curve"], "from_bytes panics instead of returning an error on an encoding whose field %s holds a %s" % (b["pos"], b["kind"])))
+        for d in H["dec"]:
+            n += 1
+            dist["dec %s -> %s" % (d["kind"].rstrip("0123456789"), d["impl"][0])] += 1
+            if d["impl"][0] == 99:
+                hits.append(_hhit(r, "dec:%s:%d" % (d["curve"], d["idx"]), "from_bytes panics instead of returning an error on input (%s)" % d["kind"]))
+            if d["model"] is not None and d["impl"][0] == 1 and d["model"][0] == 0:
+                hits.append(_hhit(r, "dec:%s:%d" % (d["curve"], d["idx"]), "from_bytes accepts input (%s) that the layout (11 points, 3 scalars, counted L, counted R, 2 scalars) rejects" % d["kind"]))
+    return hits, {"searched": n, "hits": len(hits), "distinct_nontrivial": len(nontriv), "distribution": dict(dist),
+                  "rule": "honest proofs for n in 0..4(5) multipliers (1- and 2-phase) on 3 curves: length against the formula, |L|=|R|=k, byte-exact round trip, equal verdict, arbitrary suffix; every strict prefix (all cut points on every 4th sample, every 7th byte plus the last 70 on the others); at every one of the 11+3+2k+2 field positions: a non-canonical scalar (= modulus, all-ones), a byte string that is not a curve point, and on curve25519 a small-order point and a valid point plus a small-order point; the model's decoder run on honest / mis-framed / truncated / extended / corrupted inputs with arkworks' per-chunk validity as the element-codec oracle"}
+
+
 PROPS = {
     "C01": {
         "prop_files": ["Properties/C01.v"], "run_files": ["Run/R1cs.v"],
@@ -527,6 +630,22 @@ PROPS = {
         "components": lambda tier: [("batch", ["batch"], {})],
         "search": search_c07,
         "assumptions": ["field and F-module laws; the weights are drawn after all proofs are fixed (caller's RNG); probability statement in its exact 'at most one alpha_j' form"],
+    },
+    "C08": {
+        "prop_files": ["Properties/C08.v"], "run_files": ["Run/Shape.v", "Run/Codec.v"],
+        "level": "proof",
+        "components": lambda tier: [("hostile", ["hostile"], {})],
+        "search": search_c08,
+        "assumptions": ["the shape model (Model/Shape.v) lists the panic sites of verify / batch_verify / verification_scalars by reading the code: indexing, slicing, usize subtraction, shifts, zip truncation, msm(..).unwrap(); panics inside arkworks/merlin are not modelled (exercised by the fuzz stream only)",
+                        "debug-assertion builds: overflow checks are on in the harness profile"],
+    },
+    "C11": {
+        "prop_files": ["Properties/C11.v"], "run_files": ["Run/Codec.v"],
+        "level": "proof",
+        "components": lambda tier: [("hostile", ["hostile"], {})],
+        "search": search_c11,
+        "assumptions": ["element codecs (arkworks validated compressed mode for points and scalars) are abstract fixed-width codecs with dec(enc x) = x; their rejection of non-canonical scalars, off-curve and small-subgroup points is measured at every field position by K7, not proved",
+                        "the executed reader is read_vec_fast, proved equal to the model's reader on byte lists (decode_r_fast_eq)"],
     },
     "C09": {
         "prop_files": ["Properties/C09.v"], "run_files": ["Run/R1cs.v"],
